@@ -195,7 +195,15 @@ func (bg *BondgoCheck) Create_Bondmachine(rsize int, filter string) (*bondmachin
 	for _, _ = range creqs {
 		bmach.Add_shared_objects([]string{"channel:"})
 	}
-	for chanid, creq := range creqs {
+	// Connect in channel order: the position of a link is the channel's
+	// number on the processor, map order would renumber them on every run
+	chanids := make([]int, 0, len(creqs))
+	for chanid := range creqs {
+		chanids = append(chanids, chanid)
+	}
+	sort.Ints(chanids)
+	for _, chanid := range chanids {
+		creq := creqs[chanid]
 		for _, proc_id := range creq.Connected {
 			endpoints := make([]string, 2)
 			endpoints[0] = strconv.Itoa(proc_id)
